@@ -13,8 +13,7 @@ def c11(tier):
             over = t == "12,12,8"  # 32 threads on 16 cores: fewer cases
             runs.append(H("c11_graphs_full", "asan", 400 if over else 1500, t, timeout_per_case=60 if over else 30,
                           params=dict(salt=10 + i, big=1)))
-        # ... and the representative subset as optimised NDEBUG code (no UBSan: also reaches the content
-        # checks of the LC_Linear_Graph configurations whose misaligned edge records stop the asan runs)
+        # ... and the representative subset as optimised NDEBUG code (what applications actually run)
         for i, t in enumerate([None, "4,4,4,4"]):
             runs.append(H("c11_graphs", "plain", 3000, t, timeout_per_case=20, params=dict(salt=20 + i, big=1)))
     return runs
@@ -49,7 +48,7 @@ SPEC = dict(
     assumptions=[
         "node identity of LC_Linear/LC_InlineEdge graphs is the position in begin()..end() (the only identity the API offers)",
         "LC_Morph_Graph exposes no node identity: compared up to isomorphism",
-        "version-2 .gr inputs have an even edge count or no edge data, so the library's inconsistent v2 padding (C12) cannot matter",
+        "version-2 .gr inputs are written without padding after the 64-bit destinations (the documented layout, V2Pad::None)",
         "symmetric mode of LC_InOut_Graph is only given symmetric inputs (its documented precondition); findEdgeSortedByDst only sorted lists",
         "in-edges of a by-reference LC_CSR_CSC_Graph are compared before any later re-ordering of the out-edges",
         "readUnweighted / FileEdgeTy=void / EdgeTy=void-with-file-data cases compare the structure only",
